@@ -400,12 +400,13 @@ func (g *ctxGen) gen() *hcl.EvalContext {
 	v["u_set"] = cty.UnknownVal(cty.Set(cty.String))
 	v["u_dyn"] = cty.DynamicVal
 	v["u_str"] = cty.UnknownVal(cty.String)
-	mk := fmt.Sprintf("m%d", 1+r.Intn(3))
-	v["mk_list"] = g.strList(0).Mark(mk)
-	v["mk_empty"] = cty.ListValEmpty(cty.String).Mark(mk)
-	v["mk_map"] = g.strMap(0).Mark(mk)
-	v["mk_ulist"] = cty.UnknownVal(cty.List(cty.String)).Mark(mk)
-	v["mk_str"] = g.str().Mark(mk)
+	_ = r.Intn(3)
+	// one mark per variable, so that the oracle can tell whose mark survived
+	v["mk_list"] = g.strList(0).Mark("m1")
+	v["mk_empty"] = cty.ListValEmpty(cty.String).Mark("m2")
+	v["mk_map"] = g.strMap(0).Mark("m3")
+	v["mk_ulist"] = cty.UnknownVal(cty.List(cty.String)).Mark("m4")
+	v["mk_str"] = g.str().Mark("m5")
 	v["nul_list"] = cty.NullVal(cty.List(cty.String))
 	v["nul_dyn"] = cty.NullVal(cty.DynamicPseudoType)
 	v["nul_str"] = cty.NullVal(cty.String)
